@@ -5,9 +5,9 @@ their references lives in spec/Engine.tla); ENTRIES: the ones used as entry poin
 """
 from __future__ import annotations
 
-OWN = ["plain", "caller", "main0", "bad_type", "calls_bad", "ct_good", "ct_bad", "closure", "first", "use_generic",
+OWN = ["plain", "caller", "main0", "bad_type", "calls_bad", "ct_good", "ct_bad", "ct_expr", "closure", "first", "use_generic",
        "mono", "use_mono", "Pt", "use_struct", "ov_int", "ov_float", "over", "use_over", "loops", "n"]
-ENTRIES = ["plain", "caller", "main0", "bad_type", "calls_bad", "ct_good", "ct_bad", "closure", "use_generic",
+ENTRIES = ["plain", "caller", "main0", "bad_type", "calls_bad", "ct_good", "ct_bad", "ct_expr", "closure", "use_generic",
            "use_mono", "use_struct", "use_over", "loops"]
 
 PRELUDE = """\
@@ -56,6 +56,11 @@ def ct_good(x: int) -> int:
 def ct_bad(x: int) -> int:
     y = x + plain(1)
     return y + [1, 2][5]
+
+
+@guppy
+def ct_expr() -> int:
+    return comptime(plain(1))
 
 
 @guppy
